@@ -661,6 +661,27 @@ def rule_bdd2(prog, found):
             if not calls and keys_r:
                 # hit: read with the keys a miss stores under
                 hit_keys.add(keys_r)
+            if not calls and not keys_r and nkey == 2:
+                # neither a hit nor a miss: a result that is not computed
+                # by the step cannot be right for every operator
+                opsym = args[0]
+                looked = any(x == opsym for (cc, pol) in p.pc
+                             for x in walk(cc)) or any(
+                    e.kind == 'call' and any(x == opsym for a in e.args
+                                             for x in walk(a))
+                    for e in p.log)
+                if looked:
+                    raise Inconclusive(
+                        'R-BDD-2', '%s returns %s without the step on a '
+                        'path that inspects the operator' % (
+                            w.short(), repr(v)[:60]), w.where())
+                ok = False
+                why = 'returns %s under %s without computing the step: ' \
+                    'the same answer for every operator (f op f is f for ' \
+                    'and / or, false for xor)' % (
+                        repr(v)[:60], [('' if pol else 'not ') +
+                                       repr(cc)[:60] for (cc, pol) in
+                                       p.pc[-2:]])
         if ok and store_keys and hit_keys and store_keys != hit_keys:
             ok = False
             why = 'a miss stores under %r but a hit reads %r' % (
@@ -685,6 +706,132 @@ def _keys(v):
         ks.append(v.args[1])
         v = v.args[0]
     return tuple(reversed(ks))
+
+
+class _Unknown(Exception):
+    pass
+
+
+def _terminal_value_fields(prog):
+    from ..fields import bdd_node_fields
+    tc = prog.cls('BDD.BDD.BDDTerminalNode')
+    return tc, {bdd_node_fields(prog)[3]}
+
+
+def _ev_bool(t, env, OP, table):
+    if t in env:
+        return env[t]
+    if isinstance(t, Const):
+        return t.v
+    if isinstance(t, App):
+        if t.op == 'call' and t.args and t.args[0] == OP:
+            a = t.args[1] if len(t.args) > 1 else None
+            kw = t.args[2] if len(t.args) > 2 else None
+            if not isinstance(a, Tup) or len(a.items) != 2 or \
+                    (kw is not None and getattr(kw, 'items', ())):
+                raise _Unknown('call of the operator with %r' % (t,))
+            x, y = [_ev_bool(i, env, OP, table) for i in a.items]
+            if not (isinstance(x, bool) and isinstance(y, bool)):
+                raise _Unknown('operator applied to non-Boolean %r' % (t,))
+            return table[(x, y)]
+        if t.op == 'cmp' and len(t.args) == 3 and \
+                isinstance(t.args[0], Const):
+            k = t.args[0].v
+            l = _ev_bool(t.args[1], env, OP, table)
+            r = _ev_bool(t.args[2], env, OP, table)
+            if not (isinstance(l, bool) and isinstance(r, bool)):
+                raise _Unknown('comparison of non-Booleans %r' % (t,))
+            if k in ('==', 'is'):
+                return l == r
+            if k in ('!=', 'is not'):
+                return l != r
+        if t.op == 'not' and len(t.args) == 1:
+            return not _ev_bool(t.args[0], env, OP, table)
+    raise _Unknown('term %s' % repr(t)[:80])
+
+
+def _const_shortcut(prog, p, v, me, B, OP, oc):
+    """p: a returning path of OBDD.apply that does not reach the recursion
+    and consults the operator.  Returns ([(table, c, side, got, expected)],
+    number of (table, constant) cases that satisfy the path condition)."""
+    tc, vfields = _terminal_value_fields(prog)
+    if len(vfields) != 1:
+        raise _Unknown('terminal node with fields %s' % sorted(vfields))
+    vf = list(vfields)[0]
+    known = []
+    rest = []
+    for (c, pol) in p.pc:
+        if isinstance(c, App) and c.op == 'isinstance' and \
+                isinstance(c.args[1], CRef) and c.args[1].ci is tc and pol \
+                and isinstance(c.args[0], App) and c.args[0].op == 'attr' \
+                and c.args[0].args[0] in (me, B):
+            known.append(c.args[0].args[0])
+        elif any(x == OP for x in walk(c)):
+            rest.append((c, pol))
+        elif isinstance(c, App) and c.op == 'isinstance' and \
+                c.args[0] in (me, B):
+            pass
+        elif isinstance(c, App) and c.op == 'cmp' and set(c.args[1:]) == {
+                App('attr', me, Const('ordering')),
+                App('attr', B, Const('ordering'))}:
+            pass
+        elif isinstance(c, App) and c.op == 'isinstance' and not pol and \
+                isinstance(c.args[1], CRef) and c.args[1].ci is tc:
+            # the other operand is known not to be a constant: no
+            # restriction on the function it denotes beyond that
+            pass
+        else:
+            raise _Unknown('path condition %s' % repr(c)[:80])
+    if len(known) != 1:
+        raise _Unknown('%d constant operands on the path' % len(known))
+    X = known[0]
+    other = B if X == me else me
+    side = 'left' if X == me else 'right'
+    cval = App('attr', App('attr', X, c_root(p, X)), Const(vf))
+    bad = []
+    ncases = 0
+    for bits in itertools.product((False, True), repeat=4):
+        table = dict(zip([(False, False), (False, True), (True, False),
+                          (True, True)], bits))
+        for c in (False, True):
+            env = {cval: c}
+            if not all(_ev_bool(cc, env, OP, table) == pol
+                       for (cc, pol) in rest):
+                continue
+            ncases += 1
+            g = tuple(table[(c, y)] if X == me else table[(y, c)]
+                      for y in (False, True))
+            if v == other:
+                got = 'the other operand'
+                right = g == (False, True)
+            elif v == X:
+                got = 'the constant %s' % c
+                right = g == (c, c)
+            elif isinstance(v, New) and v.ci is oc and v.args and \
+                    isinstance(v.args[0], New) and len(v.args[0].args) == 1 \
+                    and v.args[0].ci.short().startswith('BDD.BDD.BDD'):
+                k = _ev_bool(v.args[0].args[0], env, OP, table)
+                if not isinstance(k, bool):
+                    raise _Unknown('constant %r' % (k,))
+                got = 'the constant %s' % k
+                right = g == (k, k)
+            else:
+                raise _Unknown('returned value %s' % repr(v)[:60])
+            if not right:
+                exp = {(False, False): 'false', (True, True): 'true',
+                       (False, True): 'y', (True, False): 'not y'}[g]
+                bad.append((''.join('01'[b] for b in bits), c, side, got,
+                            exp))
+    return bad, ncases
+
+
+def c_root(p, X):
+    for (c, pol) in p.pc:
+        if isinstance(c, App) and c.op == 'isinstance' and \
+                isinstance(c.args[0], App) and c.args[0].op == 'attr' and \
+                c.args[0].args[0] == X:
+            return c.args[0].args[1]
+    raise _Unknown('no root attribute')
 
 
 def rule_bdd34(prog, found):
@@ -728,10 +875,31 @@ def rule_bdd34(prog, found):
                     condition=[('' if pol else 'not ') + repr(cc)[:80]
                                for (cc, pol) in p.pc])
             if looked:
-                raise Inconclusive(
-                    'R-BDD-3', 'OBDD.apply returns %s on a path that '
-                    'inspects the operator; not decided' % repr(v)[:60],
-                    oapply.where())
+                # a constant-operand shortcut that consults the operator:
+                # decided by enumerating the 16 binary Boolean operators
+                # and both values of the constant operand
+                try:
+                    bad, ncases = _const_shortcut(prog, p, v, me, B, OP, oc)
+                except _Unknown as e:
+                    raise Inconclusive(
+                        'R-BDD-3', 'OBDD.apply returns %s on a path that '
+                        'inspects the operator; not decided (%s)' % (
+                            repr(v)[:60], e), oapply.where())
+                r3.inst(path='constant-operand shortcut',
+                        operator_tables_x_constants_on_this_path=ncases,
+                        wrong=len(bad))
+                if bad:
+                    tbl, c, side, got, exp = bad[0]
+                    r3.fail(Finding(
+                        PROP, 'R-BDD-3', oapply.where(), oapply.short(),
+                        'const-shortcut:%s' % got,
+                        'OBDD.apply, %s operand the constant %s and operator '
+                        'with truth table %s: the shortcut returns %s but '
+                        'the function of the other operand y is %s' % (
+                            side, c, tbl, got, exp)), witness=(tbl, c))
+                else:
+                    r3.ok()
+                continue
             r3.fail(Finding(
                 PROP, 'R-BDD-3', oapply.where(), oapply.short(),
                 'shortcut:%s' % ','.join(
